@@ -192,7 +192,7 @@ class HH2Case:
                     ][-3:]
                 })
         finally:
-            simmp.reap_all()
+            simmp.collect()
 
     # -------------------------------------------------------------- ops ---
     def step(self, op):
